@@ -173,6 +173,8 @@ func TestWorker(t *testing.T) {
 		}
 		emit(propInfoJSON(pd))
 	case "sentinel":
+		// a sentinel aims at an open known finding: nothing is avoided
+		openAvoid = map[string]bool{}
 		if name := os.Getenv("VS_SENTINEL_PLAN"); name != "" {
 			mkp := sentinelPlans[name]
 			if mkp == nil {
